@@ -230,6 +230,9 @@ impl Debugger {
                 }
 
                 Status::Finish => {
+                    // A command since the start of this call (goto, reset, move, eval) may have
+                    // changed which instruction is under the program counter
+                    let instr = SignificantInstr::try_from(state.mem(state.pc())).ok();
                     if instr == Some(SignificantInstr::Return) {
                         dprintln!(
                             Alternate,
